@@ -1,3 +1,95 @@
-From Coq Require Import List ZArith Bool.
+(* Property C08 - read-only objects cannot be changed through the public API.
+   Theorems over the heap machine of C08Model.v (buffers, array objects with a
+   WRITEABLE flag, polymath objects).  U = any heap, any history. *)
+From Coq Require Import List ZArith Bool Lia.
 From PM Require Import C08Model C08Lemmas.
 Import ListNotations.
+
+(* U: every mutator on a read-only object raises and leaves the whole heap unchanged *)
+Theorem C08_mutators_rejected : forall h i,
+  valid h i = true -> oro (nth i (objs h) dflt_obj) = true ->
+  hstep h (HSetInt i) = (h, RErr) /\ hstep h (HIAdd i) = (h, RErr) /\ hstep h (HSetUnits i) = (h, RErr).
+Proof. exact mutators_rejected. Qed.
+
+(* U: as_readonly() flags the object and makes its value and mask arrays refuse writes,
+   whether or not the object was already flagged *)
+Theorem C08_as_readonly_freezes : forall h i,
+  let o := nth i (objs h) dflt_obj in
+  i < length (objs h) -> ovals o < length (arrs h) ->
+  (forall m, omask o = Some m -> m < length (arrs h)) ->
+  let h' := freeze h i in
+  oro (nth i (objs h') dflt_obj) = true /\
+  awr (get_arr h' (ovals o)) = false /\
+  (forall m, omask o = Some m -> awr (get_arr h' m) = false).
+Proof. exact freeze_freezes. Qed.
+Theorem C08_direct_write_refused : forall h i, valid h i = true ->
+  awr (get_arr h (ovals (nth i (objs h) dflt_obj))) = false -> hstep h (HDirectV i) = (h, RErr).
+Proof. exact direct_write_refused. Qed.
+Theorem C08_direct_mask_write_refused : forall h i m, valid h i = true ->
+  omask (nth i (objs h) dflt_obj) = Some m -> awr (get_arr h m) = false ->
+  hstep h (HDirectM i) = (h, RErr).
+Proof. exact direct_mask_write_refused. Qed.
+
+(* U: the read-only flag is never lost, through any history *)
+Theorem C08_readonly_forever : forall ps h i, ro_at h i -> ro_at (hrun h ps) i.
+Proof. exact oro_forever. Qed.
+
+(* U: slices, clones (wod), array-indexed copies, broadcasts and unpickled copies of a
+   read-only object are read-only *)
+Theorem C08_derived_readonly : forall h i,
+  valid h i = true -> oro (nth i (objs h) dflt_obj) = true ->
+  forall p, In p [HSlice i; HClone i; HAdvanced i; HBroadcast i; HPickle i] ->
+  snd (hstep h p) = ROk -> oro (last (objs (fst (hstep h p))) dflt_obj) = true.
+Proof. exact derived_readonly. Qed.
+
+(* U: the storage of a frozen object can never change again: if every array over buffer b
+   is read-only, then after ANY history (views, clones, broadcasts, pickles, mutators on any
+   object, direct array writes) the buffer still holds the same content.  Views created
+   after the freeze inherit the flag, which is why the hypothesis is stable. *)
+Theorem C08_frozen_storage_forever : forall h b ps,
+  buf_frozen h b -> b < length (bufs h) -> get_buf (hrun h ps) b = get_buf h b.
+Proof. exact frozen_forever. Qed.
+Theorem C08_frozen_step : forall b c h p, Inv b c h -> Inv b c (fst (hstep h p)).
+Proof. exact hstep_inv. Qed.
+
+(* U: copy() is writable and lives on fresh storage *)
+Theorem C08_copy_writable : forall h i, valid h i = true ->
+  let h' := fst (hstep h (HCopy i)) in
+  let o' := last (objs h') dflt_obj in
+  oro o' = false /\ awr (get_arr h' (ovals o')) = true /\ length (bufs h) <= abuf (get_arr h' (ovals o')).
+Proof. exact copy_writable_fresh. Qed.
+
+(* non-vacuity: an object made, frozen, then attacked through itself, a later slice, a clone
+   and a broadcast: every attempt is refused and the content is what it was *)
+Example C08_ex_history :
+  let ps := [HMake; HFreeze 0; HSlice 0; HClone 0; HBroadcast 0;
+             HSetInt 0; HIAdd 1; HDirectV 2; HDirectM 1; HSetInt 3; HSetUnits 2] in
+  map fst (htrace init_heap ps)
+    = [ROk; ROk; ROk; ROk; ROk; RErr; RErr; RErr; RErr; RErr; RErr]
+  /\ buf_frozen (hrun init_heap [HMake; HFreeze 0]) 0
+  /\ get_buf (hrun init_heap ps) 0 = [11; 12; 13]%Z.
+Proof.
+  split; [vm_compute; reflexivity|]. split; [|vm_compute; reflexivity].
+  intros k Hk Hb. vm_compute in Hk.
+  destruct k as [|[|k]]; [reflexivity | vm_compute in Hb; discriminate | lia].
+Qed.
+(* the hypothesis of C08_frozen_storage_forever is not automatic: a view made BEFORE the
+   freeze keeps its own WRITEABLE flag and writes through it reach the frozen object's buffer
+   (the recorded finding KF-C08-prior-view) *)
+Example C08_prior_view_refuted :
+  exists ps, let h := hrun init_heap ps in
+    oro (nth 0 (objs h) dflt_obj) = true /\ get_buf h 0 <> [11; 12; 13]%Z.
+Proof.
+  exists [HMake; HSlice 0; HFreeze 0; HDirectV 1].
+  vm_compute. split; [reflexivity | discriminate].
+Qed.
+
+Print Assumptions C08_mutators_rejected.
+Print Assumptions C08_as_readonly_freezes.
+Print Assumptions C08_direct_write_refused.
+Print Assumptions C08_direct_mask_write_refused.
+Print Assumptions C08_readonly_forever.
+Print Assumptions C08_derived_readonly.
+Print Assumptions C08_frozen_storage_forever.
+Print Assumptions C08_frozen_step.
+Print Assumptions C08_copy_writable.
